@@ -743,7 +743,7 @@ CLAIMS = [
           "(key . value)) and end with a proper list, a vector (tuples), or (name item...) / (name (field . value)...) for "
           "variants; an error is returned iff a nested serialization failed",
           "arbitrary already-collected prefix (one-step induction over any number of items), abstract nested serializations",
-          configs=("fast",), also=("C04",)),
+          configs=("fast",), also=("C04", "C18")),
     Claim("c18_error_category", "C18", "quick", claim_error_category,
           "serde_lexpr::Error::classify maps message errors (all the value deserializer produces) to Category::Data and I/O errors to Io",
           "all ErrorImpl variants", configs=("fast",)),
